@@ -42,6 +42,21 @@ impl<'a> Sink<'a> {
             }
         }
     }
+    /// Like `violation`, but the (possibly expensive) witness is only built for the first
+    /// observation of a signature.
+    pub fn violation_lazy(&self, sig: &str, what: &str, witness: impl FnOnce() -> Value) {
+        let first = {
+            let mut g = self.seen.lock().unwrap();
+            let e = g.entry(sig.to_string()).or_insert(0);
+            *e += 1;
+            *e == 1
+        };
+        if first {
+            if let Some(r) = self.report {
+                r.violation(sig, what, witness());
+            }
+        }
+    }
     pub fn n_signatures(&self) -> usize {
         self.seen.lock().unwrap().len()
     }
